@@ -135,6 +135,24 @@ pub fn run(model: &str) {
                 .configure(console_config),
         )
         .await;
+        // the gRPC service object with its own handler table, as main.rs builds it
+        // (served by tonic on a loopback port: `request` reads the peer address of the connection)
+        let grpc_port = std::net::TcpListener::bind("127.0.0.1:0").ok().and_then(|l| l.local_addr().ok()).map(|a| a.port()).unwrap_or(0);
+        {
+            let mut iv = InvokerHandler::new(app.clone());
+            iv.add_config_handler(&app);
+            iv.add_naming_handler(&app);
+            iv.add_raft_handler(&app);
+            let srv = rnacos::grpc::server::RequestServerImpl::new(app.clone(), iv);
+            let addr: std::net::SocketAddr = format!("127.0.0.1:{}", grpc_port).parse().unwrap();
+            tokio::spawn(async move {
+                let _ = tonic::transport::Server::builder()
+                    .add_service(rnacos::grpc::nacos_proto::request_server::RequestServer::new(srv))
+                    .serve(addr)
+                    .await;
+            });
+        }
+        let mut grpc_client: Option<rnacos::grpc::nacos_proto::request_client::RequestClient<tonic::transport::Channel>> = None;
         let mut invoker = InvokerHandler::new(app.clone());
         invoker.add_config_handler(&app);
         invoker.add_naming_handler(&app);
@@ -250,6 +268,80 @@ pub fn run(model: &str) {
                             } else if ptype == "ErrorResponse" && body.contains("request cluster token is invalid") {
                                 "500".to_string()
                             } else {
+                                "dispatched".to_string()
+                            }
+                        }
+                        Err(_) => "dispatched".to_string(),
+                    };
+                    out.push(r);
+                }
+                // the same through the real gRPC service object (`RequestServerImpl::request`): fill_token_session reads
+                // the headers of the payload (user token, cluster token) before InvokerHandler::handle decides
+                //   grpcsrv <type> token=<none|empty|valid|garbage> ctoken=<none|empty|prefix|exact|longer|garbage>
+                Some("grpcsrv") if ws.len() >= 2 => {
+                    if grpc_client.is_none() {
+                        for _ in 0..50 {
+                            match rnacos::grpc::nacos_proto::request_client::RequestClient::connect(format!("http://127.0.0.1:{}", grpc_port)).await {
+                                Ok(c) => {
+                                    grpc_client = Some(c);
+                                    break;
+                                }
+                                Err(_) => tokio::time::sleep(std::time::Duration::from_millis(100)).await,
+                            }
+                        }
+                    }
+                    let mut payload = PayloadUtils::build_payload(ws[1], "{}".to_string());
+                    let cfg = app.sys_config.cluster_token.as_ref().clone();
+                    if let Some(meta) = payload.metadata.as_mut() {
+                        match kv(&ws, "token") {
+                            "empty" => {
+                                meta.headers.insert("accessToken".to_string(), String::new());
+                            }
+                            "valid" => {
+                                meta.headers.insert("accessToken".to_string(), "tok-valid".to_string());
+                            }
+                            "garbage" => {
+                                meta.headers.insert("accessToken".to_string(), "zzz-garbage".to_string());
+                            }
+                            _ => {}
+                        }
+                        let ct = match kv(&ws, "ctoken") {
+                            "empty" => Some(String::new()),
+                            "prefix" => Some(cfg.chars().take(cfg.chars().count() / 2).collect::<String>()),
+                            "exact" => Some(cfg.clone()),
+                            "longer" => Some(format!("{}x", cfg)),
+                            "garbage" => Some("q".repeat(cfg.len().max(1))),
+                            _ => None,
+                        };
+                        if let Some(ct) = ct {
+                            meta.headers.insert("ClusterToken".to_string(), ct);
+                        }
+                    }
+                    let client = match grpc_client.as_mut() {
+                        Some(c) => c,
+                        None => {
+                            out.push("err no-grpc-client".to_string());
+                            continue;
+                        }
+                    };
+                    let r = match client.request(tonic::Request::new(payload)).await {
+                        Ok(res) => {
+                            let p = res.into_inner();
+                            let ptype = p.metadata.as_ref().map(|m| m.r#type.clone()).unwrap_or_default();
+                            let body = p.body.as_ref().map(|b| String::from_utf8_lossy(&b.value).to_string()).unwrap_or_default();
+                            if ptype == "ServerCheckResponse" {
+                                "servercheck".to_string()
+                            } else if ptype == "ErrorResponse" && body.contains("unknown user!") {
+                                "403".to_string()
+                            } else if ptype == "ErrorResponse" && body.contains("request cluster token is invalid") {
+                                "500".to_string()
+                            } else if ptype == "ErrorResponse" && body.contains("\"errorCode\":301") {
+                                // the connection has no registered bi-stream: refused before anything else is looked at
+                                "301".to_string()
+                            } else {
+                                if std::env::var("VERIF_DEBUG").is_ok() {
+                                    eprintln!("DEBUG grpcsrv {} -> {} {}", ws[1], ptype, body.chars().take(200).collect::<String>());
+                                }
                                 "dispatched".to_string()
                             }
                         }
